@@ -26,14 +26,16 @@ theorem table_ctor_spec_checked : table.all ctorSpecCheck = true := by decide +k
 every number, the constructor raises iff the setter raises (`nan` excepted for the array sizes, see
 `nanSilent`). -/
 theorem ctor_eq_setter {e : Entry} (he : e ∈ table) (x : Num)
-    (hx : x = .nan → nanSilent e.cls e.field = false) : raises e.ctor x = raises e.setter x := by
+    (hx : x = .nan → nanSilent e.cls e.field = false) (_hi : intDomain e x) :
+    raises e.ctor x = raises e.setter x := by
   have h := List.all_eq_true.mp table_ctor_setter_checked e he
   exact condEquiv_sound h x (fun hn => by simp [withNanFor, hx hn])
 
 /-- **The setter accepts exactly the documented range** (so an attribute assignment and — `Processor.set`
 ending in `setattr` — a parameter sweep or override refuse exactly what is outside it). -/
 theorem setter_eq_spec {e : Entry} (he : e ∈ table) {r : Range} (hr : specOf e.cls e.field = some r)
-    (x : Num) (hx : x = .nan → nanSilent e.cls e.field = false) : accepts e.setter x = inRange r x := by
+    (x : Num) (hx : x = .nan → nanSilent e.cls e.field = false) (_hi : intDomain e x) :
+    accepts e.setter x = inRange r x := by
   have h := List.all_eq_true.mp table_setter_spec_checked e he
   simp only [setterSpecCheck, hr] at h
   rw [inRange_eq_accepts]
@@ -42,7 +44,8 @@ theorem setter_eq_spec {e : Entry} (he : e ∈ table) {r : Range} (hr : specOf e
 
 /-- **The constructor (hence the YAML loader, which calls it) accepts exactly the documented range.** -/
 theorem ctor_eq_spec {e : Entry} (he : e ∈ table) {r : Range} (hr : specOf e.cls e.field = some r)
-    (x : Num) (hx : x = .nan → nanSilent e.cls e.field = false) : accepts e.ctor x = inRange r x := by
+    (x : Num) (hx : x = .nan → nanSilent e.cls e.field = false) (_hi : intDomain e x) :
+    accepts e.ctor x = inRange r x := by
   have h := List.all_eq_true.mp table_ctor_spec_checked e he
   simp only [ctorSpecCheck, hr] at h
   rw [inRange_eq_accepts]
@@ -81,10 +84,18 @@ theorem fields_covered : table.all (fun e => (specOf e.cls e.field).isSome) = tr
 theorem table_fields_nodup : (table.map (fun e => (e.cls, e.field))).Nodup := by decide +kernel
 
 /-- the only validated fields that are not numeric comparisons are the two voltage ranges (length-2
-sequences; exercised by the correspondence, not by the guard theorems) -/
+sequences) and two enumerations (`variant_adptv ∈ (1, 2)`, the island topology); exercised by the
+correspondence, not by the guard theorems -/
 theorem opaque_fields_known :
-    opaqueFields = ["APDCharacteristics.adc_voltage_range", "Characteristics.adc_voltage_range"] := by
+    opaqueFields = ["APDCharacteristics.adc_voltage_range", "Algorithm.variant_adptv", "Calibration.topology",
+      "Characteristics.adc_voltage_range"] := by
   decide
+
+/-- the integer-only fields found in the source are the documented integer settings -/
+theorem int_only_fields_known : intOnlyFields =
+    [("Calibration", "pygmo_seed"), ("Calibration", "num_best_decisions"), ("Algorithm", "generations"),
+     ("Algorithm", "population_size"), ("Algorithm", "variant")] := by decide
+
 
 /-- a sweep / override / calibration variable reaches the property setter: `Processor.set` ends in
 `setattr`, `create_new_processor` assigns through `Processor.set` -/
@@ -97,7 +108,8 @@ theorem specOf_mem_specFields {cls f : String} {r : Range} (h : specOf cls f = s
   unfold specOf at h
   split at h <;> first | (simp at h; done) | (simp [specFields])
 
-theorem ctorGuard_spec (cls f : String) (x : Num) (hx : x = .nan → nanSilent cls f = false) :
+theorem ctorGuard_spec (cls f : String) (x : Num) (hx : x = .nan → nanSilent cls f = false)
+    (hint : (cls, f) ∈ intOnlyFields → isIntegral x = true) :
     raises (ctorGuard table cls f) x =
       match specOf cls f with
       | some r => !inRange r x
@@ -123,7 +135,7 @@ theorem ctorGuard_spec (cls f : String) (x : Num) (hx : x = .nan → nanSilent c
     cases hs : specOf e.cls e.field with
     | none => simp [hs] at hsome
     | some r =>
-      have := ctor_eq_spec he hs x (by rw [hc, hfld]; exact hx)
+      have := ctor_eq_spec he hs x (by rw [hc, hfld]; exact hx) (by unfold intDomain; rw [hc, hfld]; exact hint)
       rw [← hc, ← hfld, hs]
       simp only [accepts] at this
       simp only
@@ -134,7 +146,8 @@ theorem ctorGuard_spec (cls f : String) (x : Num) (hx : x = .nan → nanSilent c
 refused iff some value is outside its documented range, and otherwise **every setting equals the value
 written in the file**. -/
 theorem load_section_spec (cls : String) (kv : List (String × Num))
-    (hnan : ∀ e ∈ kv, e.2 = .nan → nanSilent cls e.1 = false) :
+    (hnan : ∀ e ∈ kv, e.2 = .nan → nanSilent cls e.1 = false)
+    (hint : ∀ e ∈ kv, (cls, e.1) ∈ intOnlyFields → isIntegral e.2 = true) :
     loadSection table cls kv =
       if kv.all (fun e => match specOf cls e.1 with | some r => inRange r e.2 | none => true)
       then .ok kv else .error .value := by
@@ -144,8 +157,8 @@ theorem load_section_spec (cls : String) (kv : List (String × Num))
     induction kv with
     | nil => simp
     | cons e es ih =>
-      have h1 := ctorGuard_spec cls e.1 e.2 (hnan e (by simp))
-      have h2 := ih (fun e' he' => hnan e' (by simp [he']))
+      have h1 := ctorGuard_spec cls e.1 e.2 (hnan e (by simp)) (hint e (by simp))
+      have h2 := ih (fun e' he' => hnan e' (by simp [he'])) (fun e' he' => hint e' (by simp [he']))
       simp only [List.any_cons, List.all_cons, h1, h2]
       cases specOf cls e.1 <;> simp [Bool.not_and]
   rw [key]
